@@ -61,6 +61,8 @@ void *nondet_ptr(void);
 	} while (0)
 
 #else /* native replay */
+#define V_XSTR_(x) #x
+#define V_XSTR(x) V_XSTR_(x) /* expands macro arguments (renamed inputs) before stringifying */
 
 #include <stdio.h>
 #include <stdlib.h>
@@ -145,15 +147,15 @@ extern void *__asan_region_is_poisoned(void *beg, size_t size);
 	} while (0)
 #define V_WITNESS(msg) do { } while (0)
 #define V_CUT() do { fflush(stderr); _Exit(0); } while (0)
-#define V_IN_INT(name) int name = (int)v_get(#name)
-#define V_IN_UINT(name) unsigned int name = (unsigned int)v_get(#name)
-#define V_IN_LONG(name) long name = (long)v_get(#name)
-#define V_IN_BOOL(name) int name = v_get(#name) ? 1 : 0
-#define V_IN_UCHAR(name) unsigned char name = (unsigned char)v_get(#name)
-#define V_IN_DOUBLE(name) double name = v_getd(#name)
-#define V_SET_INT(name) ((name) = (int)v_get(#name))
-#define V_IN_STR(name, n) char name[(n) + 1]; v_fill(#name, name, (n))
-#define V_FILL_STR(name, n) v_fill(#name, name, (n))
+#define V_IN_INT(name) int name = (int)v_get(V_XSTR(name))
+#define V_IN_UINT(name) unsigned int name = (unsigned int)v_get(V_XSTR(name))
+#define V_IN_LONG(name) long name = (long)v_get(V_XSTR(name))
+#define V_IN_BOOL(name) int name = v_get(V_XSTR(name)) ? 1 : 0
+#define V_IN_UCHAR(name) unsigned char name = (unsigned char)v_get(V_XSTR(name))
+#define V_IN_DOUBLE(name) double name = v_getd(V_XSTR(name))
+#define V_SET_INT(name) ((name) = (int)v_get(V_XSTR(name)))
+#define V_IN_STR(name, n) char name[(n) + 1]; v_fill(V_XSTR(name), name, (n))
+#define V_FILL_STR(name, n) v_fill(V_XSTR(name), name, (n))
 
 #endif
 
